@@ -216,6 +216,20 @@ def jobs(sc):
                 yield ("B", L, f.copy(), w, None)
                 yield ("B", L, f2[:, :2].copy(), w, None)
                 yield ("B", L, f2.copy(), None, None)
+    # L2: 64+ rows over 9-12 cells, some of them empty (argsort/bincount style re-implementations of bins() live here)
+    for N in (64, 90):
+        f = np.array([float(nxt(50)) / 4.0 for _ in range(N)], dtype=float)
+        f[::11] = NaN
+        f2 = np.stack([f, np.array([float(nxt(40)) for _ in range(N)]), f[::-1].copy()], axis=1)
+        w = np.array([0.1 * (1 + nxt(7)) for _ in range(N)])
+        da = np.array([nxt(3) for _ in range(N)], dtype=np.int64)
+        db = np.array([(0, 1, 3)[nxt(3)] for _ in range(N)], dtype=np.int64)  # category 2 of 4 never occurs: empty cells in the middle
+        flat = np.array([(0, 1, 2, 4, 5, 7, 8)[nxt(7)] for _ in range(N)], dtype=np.int64)  # 9 cells, 3, 6 empty
+        for L in (([da, db], (3, 4)), ([flat], (9,)), ([db, da], (4, 3))):
+            for w_ in (None, w):
+                yield ("B", L, f.copy(), w_, None)
+                yield ("B", L, f2[:, :2].copy(), w_, None)
+            yield ("B", L, f2.copy(), None, None)
     # T: min / max of int facts with validity and of datetime64 facts
     dates = np.array(["2020-01-01", "2020-01-03", "2019-06-30", "NaT"], dtype="datetime64[D]")
     ints = (-3, 0, 1, 7)
